@@ -13,7 +13,7 @@ from typing import List
 
 from vlib import framework
 from vlib.framework import Harness
-from vlib.symx import assume
+from vlib.symx import assume, native
 
 from sqlalchemy import Column, ForeignKey, Integer, String, inspect
 from sqlalchemy.orm import attribute_keyed_dict, column_property, make_transient_to_detached, registry, relationship
@@ -389,7 +389,7 @@ def _guarded(kind, loaded, init, steps):
 def h_hist(kind: str, loaded: bool, n: int, c0: int, code: int) -> bool:
     c = pin_code(code, _native(space_size, kind, n))
     init, steps = _native(decode, kind, n, c0, c)
-    r = _native(_guarded, kind, loaded, init, steps)
+    r = native(_guarded, kind, loaded, init, steps)  # plain values only: the framework's native() section
     if r is None:
         assume(False)
     return r
